@@ -32,11 +32,18 @@ def scenarios(tier):
         for f in (0, 1):
             out.append((point, nth, f, 1))
     out.append(("unwritable-segment", 0, 0, 1))
+    # a slow writer: chronyd answers once and then refuses, so the poller sends "not responding, within
+    # the grace period"; the writer is asleep while the poller dies right after that message, and finds
+    # the report and the abort queued together when it wakes up (also with the PHC-failure flavour below)
+    for nth in (1, 2):
+        for f in (0, 1):
+            out.append(("poller.wait", nth, f, 2, "writer.loop", 1, 2500))
+    out.append(("poller.loop", 2, 0, 2, "writer.loop", 1, 2500))
     return out
 
 
 def run_one(binary, sc):
-    line = "thr %s %d %d %d" % sc
+    line = "thr " + " ".join(str(x) for x in sc)
     try:
         out = c.run_lines_in_namespace(binary, [line], timeout=60)[0]
     except c.CheckError as e:
@@ -85,6 +92,6 @@ def run(res, proofs_ok, proofs_why, only=None):
 def replay(res, path):
     r = json.load(open(path))
     sc = r["case"]["scenario"].split()
-    line, d, raw = run_one(c.build_harness("debug")[0], (sc[1], int(sc[2]), int(sc[3]), int(sc[4]) if len(sc) > 4 else 0))
+    line, d, raw = run_one(c.build_harness("debug")[0], tuple(sc[1:]))
     print("scenario %s\nimpl %s" % (line, raw))
     return 0 if d and d["returned"] == "1" and int(d["ms_after_death"]) <= DEADLINE_MS else 1
